@@ -437,6 +437,7 @@ func runUnit(prop *Prop, u *Unit, id, tier string, seed int64, replay, work stri
 	deadline := u.DeadlineS[tier]
 	reports := make([]shardReport, shards)
 	errs := make([]error, shards)
+	raceOut := make([]string, shards)
 	var wg sync.WaitGroup
 	sem := make(chan struct{}, 16)
 	for s := 0; s < shards; s++ {
@@ -468,6 +469,10 @@ func runUnit(prop *Prop, u *Unit, id, tier string, seed int64, replay, work stri
 			}
 			c.Env = env
 			o, err := c.CombinedOutput()
+			if u.Race && strings.Contains(string(o), "WARNING: DATA RACE") {
+				raceOut[s] = string(o)
+				err = nil
+			}
 			b, rerr := os.ReadFile(out)
 			if rerr != nil {
 				errs[s] = fmt.Errorf("shard %d wrote no report (exit: %v)\n%s", s, err, tail(string(o), 40))
@@ -488,6 +493,14 @@ func runUnit(prop *Prop, u *Unit, id, tier string, seed int64, replay, work stri
 			return reports, ov.Sources, e
 		}
 	}
+	for si, ro := range raceOut {
+		if ro == "" {
+			continue
+		}
+		for _, rep := range splitRaces(ro) {
+			reports[si].Violations = append(reports[si].Violations, violation{Key: "race/" + rep.key, Detail: rep.text, Replay: map[string]interface{}{"note": "re-run the unit; the race detector report is the artefact"}})
+		}
+	}
 	return reports, ov.Sources, nil
 }
 
@@ -497,4 +510,44 @@ func tail(s string, n int) string {
 		l = l[len(l)-n:]
 	}
 	return strings.Join(l, "\n")
+}
+
+type raceReport struct{ key, text string }
+
+// splitRaces turns race-detector output into one report per distinct pair of top frames.
+func splitRaces(out string) []raceReport {
+	var res []raceReport
+	seen := map[string]bool{}
+	parts := strings.Split(out, "WARNING: DATA RACE")
+	for _, p := range parts[1:] {
+		end := strings.Index(p, "==================")
+		if end > 0 {
+			p = p[:end]
+		}
+		var frames []string
+		lines := strings.Split(p, "\n")
+		for i, l := range lines {
+			t := strings.TrimSpace(l)
+			if (strings.HasPrefix(t, "Write at") || strings.HasPrefix(t, "Read at") || strings.HasPrefix(t, "Previous write at") || strings.HasPrefix(t, "Previous read at")) && i+1 < len(lines) {
+				f := strings.TrimSpace(lines[i+1])
+				f = strings.TrimSuffix(f, "()")
+				if k := strings.LastIndex(f, "/"); k >= 0 {
+					f = f[k+1:]
+				}
+				frames = append(frames, f)
+			}
+		}
+		key := strings.Join(frames, "~")
+		if key == "" {
+			key = "unparsed"
+		}
+		if !seen[key] {
+			seen[key] = true
+			if len(p) > 3000 {
+				p = p[:3000]
+			}
+			res = append(res, raceReport{key, "DATA RACE" + p})
+		}
+	}
+	return res
 }
